@@ -23,21 +23,10 @@ def submit_all(names, tail=(("wait",),)):
 
 
 def fixed_set():
-    """Which of the scheduler repairs are present in the tree under test?
-
-    The specification models the repaired behaviour; the pinned (defective) behaviour is kept as
-    named deviations selected by wl.fix so that a tree without the repair is still *described*
-    (and its violations reported by the invariants, not by a trace mismatch)."""
-    src = Path(os.environ.get("XV_REPO", "/repo")) / "src/experimaestro/scheduler/base.py"
-    text = src.read_text()
-    fx = []
-    if "XV-F2" in os.environ.get("XV_FORCE_FIX", "") or "self.state.notstarted()" in text:
-        fx.append("F2")
-    if "re-submission" in text.lower() and "unfinishedJobs += 1" in text.split("Re-submitting job")[1][:400]:
-        fx.append("F3")
-    if "job.unsatisfied == 0" in text:
-        fx.append("F4")
-    return fx
+    """The specification describes the repaired scheduler (F2, F3, F4 fixed in /repo by `fix:`
+    commits).  The pinned, defective behaviour is kept in the specification as named deviations
+    (wl.fix without the name) only to show with TLC that the model finds those defects."""
+    return ["F2", "F3", "F4"]
 
 
 def wl_of(plan, fix):
@@ -76,6 +65,44 @@ def _run_one(args):
     except e1.MachineryError as ex:
         return {"machinery": repr(ex), "plan": plan, "seed": seed}
     return r
+
+
+def _dfs(args):
+    """Systematic enumeration of the schedules of one plan (state-deduplicated, budgeted)"""
+    plan, budget = args
+    from . import e1
+
+    stack = [[]]
+    seen = set()
+    out = []
+    complete = True
+    while stack:
+        if len(out) >= budget:
+            complete = False
+            break
+        prefix = stack.pop()
+        ch = e1.ReplayChooser(prefix)
+        try:
+            r = e1.run_plan(plan, ch)
+        except e1.MachineryError as ex:
+            out.append({"machinery": repr(ex), "plan": plan, "seed": prefix})
+            continue
+        out.append(r)
+        for pos in range(len(prefix), len(ch.widths)):
+            if ch.widths[pos] > 1:
+                k = ch.keys[pos]
+                if k in seen:
+                    continue
+                seen.add(k)
+                for alt in range(ch.widths[pos] - 1, 0, -1):
+                    stack.append(r["choices"][:pos] + [alt])
+    return out, complete
+
+
+def execute_dfs(plans, budget, workers=16):
+    with ProcessPoolExecutor(max_workers=workers, initializer=_init_worker) as ex:
+        res = list(ex.map(_dfs, [(p, budget) for p in plans]))
+    return res
 
 
 def _init_worker():
